@@ -284,6 +284,8 @@ Definition extreme_of (gt : bool) (args : list val) (st : state) : outcome val :
            | Some [] => Exc "ValueError" st
            | None => Stuck "max/min"
            end
+  | a :: b :: c :: r =>      (* max(a, b, c, ...): the first extreme argument, as for two *)
+      match q_extreme gt a (b :: c :: r) with Some v => Ok v st | None => Stuck "max/min" end
   | _ => Stuck "max/min arity"
   end.
 
@@ -543,6 +545,9 @@ Section Interp.
           match kw, method ov m vs with
           | [], Some (r, None) => Ok r st2
           | [], None => ext ("$method." ++ m) (ov :: vs) [] st2   (* not a container method (fmt.format(x)): ask [ext] *)
+          | _ :: _, None =>                      (* the same with keyword arguments (t.clamp_(min=0)): evaluated after the
+                                                    positional ones, handed to [ext] as they are *)
+              bind (evalkw kw st2) (fun kvs st3 => ext ("$method." ++ m) (ov :: vs) kvs st3)
           | _, _ => Stuck ("method " ++ m)     (* mutating methods only as statements, see exec *)
           end))
     | ESetLit items => bind (evals items st) (fun vs st1 => Ok (VSet (set_add_all [] vs)) st1)
